@@ -226,7 +226,7 @@ class Repo:
                 except SyntaxError as e:
                     raise AnalysisError(f"cannot parse {p}: {e}")
                 from . import normal
-                tree = normal.normalise(tree)  # one canonical spelling for every rule (docstrings, annotations, polarity, early returns, use-once temporaries)
+                tree = normal.normalise(tree, name)  # one canonical spelling for every rule (docstrings, annotations, polarity, early returns, use-once temporaries)
                 rel = os.path.relpath(p, self.root)
                 m = Module(name, p, rel, src, tree, fn == "__init__.py")
                 self.modules[name] = m
